@@ -45,6 +45,7 @@ type FuncSpec struct {
 	Modifies []string        // ghost names; nil = unknown (all)
 	ModSet   bool
 	Pure     bool
+	Assumed  bool // contract of a repository function that is NOT verified (wrappers of external services); listed as an assumption
 	NoPanicOnly []string
 	Nullable []string // parameter field paths (param.Field) whose pointer may be nil
 	Inline   bool
@@ -57,7 +58,7 @@ type FuncSpec struct {
 }
 
 func (f *FuncSpec) HasContract() bool {
-	return f != nil && (len(f.Requires) > 0 || len(f.Ensures) > 0 || f.ModSet || f.Pure || f.ResultIs != nil) && !(f.HashInj && f.ResultIs == nil && len(f.Ensures) == 0 && false)
+	return f != nil && (len(f.Requires) > 0 || len(f.Ensures) > 0 || f.ModSet || f.Pure || f.Assumed || f.ResultIs != nil) && !(f.HashInj && f.ResultIs == nil && len(f.Ensures) == 0 && false)
 }
 
 func (c *Clause) appliesTo(prop string) bool {
@@ -273,6 +274,8 @@ func (db *SpecDB) loadFile(pkgPath, file string) error {
 			}
 		case strings.HasPrefix(body, "nullable "):
 			cur.Nullable = append(cur.Nullable, strings.Fields(body[9:])...)
+		case body == "assumed":
+			cur.Assumed = true
 		case body == "pure":
 			cur.Pure = true
 			cur.ModSet = true
@@ -404,7 +407,7 @@ func (db *SpecDB) funcsFor(prop string) []*FuncSpec {
 	var res []*FuncSpec
 	for _, f := range db.all {
 		for _, p := range f.Props {
-			if p == prop {
+			if p == prop && !f.Assumed {
 				res = append(res, f)
 			}
 		}
